@@ -925,7 +925,10 @@ fn instance<S: 'static + Debug + Hash + PrimInt + Unsigned + Send + Sync>(
 
     // token costs
     let nt = usize::from(grm.tokens_len());
-    let costs: Vec<u8> = match inst["costs"].as_str().unwrap_or("one") {
+    let costs: Vec<u8> = if let Some(a) = inst["costs"].as_array() {
+        // explicit costs by token index (missing entries: 1)
+        (0..nt).map(|i| a.get(i).and_then(|x| x.as_u64()).unwrap_or(1) as u8).collect()
+    } else { match inst["costs"].as_str().unwrap_or("one") {
         "rand3" => (0..nt).map(|_| 1 + rng.below(3) as u8).collect(),
         "rand255" => (0..nt)
             .map(|_| {
@@ -937,7 +940,7 @@ fn instance<S: 'static + Debug + Hash + PrimInt + Unsigned + Send + Sync>(
             })
             .collect(),
         _ => vec![1; nt],
-    };
+    } };
 
     if want("analyses") {
         lines.push(analyses_json(&grm, &costs).to_string());
